@@ -397,29 +397,67 @@ func (in *Interp) installStubs() {
 		a, b := sliceBytes(args[0].(SliceV)), sliceBytes(args[1].(SliceV))
 		return in.valEq(StrV{a}, StrV{b})
 	}
-	// xxhash: uninterpreted function of the (concrete) string; distinct strings get distinct symbolic scores
+	// xxhash: uninterpreted function of the (concrete) byte string; distinct strings get
+	// distinct symbolic scores (no 64-bit collisions assumed). Streaming digests accumulate
+	// the concrete bytes written since New/Reset.
 	in.stubs["github.com/cespare/xxhash.Sum64String"] = func(in *Interp, fn *ssa.Function, args []Value) Value {
 		s, ok := args[0].(StrV).concrete()
 		if !ok {
 			in.abort("unsupported", "xxhash of symbolic string")
 		}
-		name := "H_" + hexName(s)
-		t := Var(64, name)
-		seen := false
-		for _, o := range in.hashSeen {
-			if o == name {
-				seen = true
-			}
-		}
-		if !seen {
-			for _, other := range in.hashSeen {
-				in.addPC(Not(Eq(t, Var(64, other))))
-			}
-			in.hashSeen = append(in.hashSeen, name)
-			in.nondets = append(in.nondets, t)
-		}
-		return t
+		return in.hashOf(s)
 	}
+	in.stubs["github.com/cespare/xxhash.Sum64"] = func(in *Interp, fn *ssa.Function, args []Value) Value {
+		s, ok := StrV{sliceBytes(args[0].(SliceV))}.concrete()
+		if !ok {
+			in.abort("unsupported", "xxhash of symbolic bytes")
+		}
+		return in.hashOf(s)
+	}
+	in.stubs["github.com/cespare/xxhash.New"] = func(in *Interp, fn *ssa.Function, args []Value) Value {
+		pkg := in.prog.ImportedPackage("github.com/cespare/xxhash")
+		if pkg == nil || pkg.Type("xxh") == nil {
+			in.abort("unsupported", "xxhash.xxh type not found")
+		}
+		l := &Loc{v: StrV{}}
+		return IfaceV{t: types.NewPointer(pkg.Type("xxh").Type()), v: PtrV{loc: l}}
+	}
+	in.stubs["(*github.com/cespare/xxhash.xxh).Write"] = func(in *Interp, fn *ssa.Function, args []Value) Value {
+		l := args[0].(PtrV).loc
+		cur := l.v.(StrV)
+		add := sliceBytes(args[1].(SliceV))
+		l.v = StrV{append(append([]*Term{}, cur.b...), add...)}
+		return TupleV{[]Value{BVi(64, int64(len(add))), IfaceV{}}}
+	}
+	in.stubs["(*github.com/cespare/xxhash.xxh).Reset"] = func(in *Interp, fn *ssa.Function, args []Value) Value {
+		args[0].(PtrV).loc.v = StrV{}
+		return nil
+	}
+	in.stubs["(*github.com/cespare/xxhash.xxh).Sum64"] = func(in *Interp, fn *ssa.Function, args []Value) Value {
+		s, ok := args[0].(PtrV).loc.v.(StrV).concrete()
+		if !ok {
+			in.abort("unsupported", "xxhash of symbolic bytes")
+		}
+		return in.hashOf(s)
+	}
+}
+
+func (in *Interp) hashOf(s string) *Term {
+	name := "H_" + hexName(s)
+	t := Var(64, name)
+	seen := false
+	for _, o := range in.hashSeen {
+		if o == name {
+			seen = true
+		}
+	}
+	if !seen {
+		for _, other := range in.hashSeen {
+			in.addPC(Not(Eq(t, Var(64, other))))
+		}
+		in.hashSeen = append(in.hashSeen, name)
+	}
+	return t
 }
 
 func hexName(s string) string {
